@@ -65,19 +65,37 @@ const (
 	l2LateReject  = "late-reject"      // getdata; reject >= 4 x reject window after tx
 	l2OtherHash   = "otherhash-reject" // getdata; reject naming a DIFFERENT hash right after tx
 	l2Disconnect  = "disconnect"       // closes the connection on the inv
+	// A reject naming ANOTHER transaction right after the inv (an answer to
+	// something else, e.g. to an earlier broadcast), DelayMs later getdata for
+	// the announced transaction; then silent / reject after the tx.
+	l2ForeignAccept = "foreignfirst-accept"
+	l2ForeignReject = "foreignfirst-reject"
 )
 
 // L2Reaction is the scripted reaction of one peer to one transaction.
 type L2Reaction struct {
 	Kind  string `json:"kind"`
 	Class string `json:"class,omitempty"`
+	// DelayMs delays the peer's getdata (kinds that request).
+	DelayMs int `json:"delay_ms,omitempty"`
+	// Foreign selects the hash a foreignfirst reject names: "prev" = the
+	// transaction of the previous SendTransaction call, else a hash no
+	// transaction has.
+	Foreign string `json:"foreign,omitempty"`
 }
 
 func (r L2Reaction) String() string {
-	if r.Class == "" {
-		return r.Kind
+	s := r.Kind
+	if r.Class != "" {
+		s += ":" + r.Class
 	}
-	return r.Kind + ":" + r.Class
+	if r.DelayMs > 0 {
+		s += fmt.Sprintf("@%dms", r.DelayMs)
+	}
+	if r.Foreign != "" {
+		s += "/" + r.Foreign
+	}
+	return s
 }
 
 // l2Ev is one recorded fact. Seq is the position in the netsim event log.
@@ -146,6 +164,7 @@ func l2Observe(evs []l2Ev, c *l2Call, peers []string, window time.Duration, thr 
 		hasRej         bool
 		rejClass       string
 		other, late    bool
+		otherFirst     bool // a reject naming another hash was written before the getdata
 	}
 	st := map[string]*per{}
 	for _, p := range peers {
@@ -174,6 +193,9 @@ func l2Observe(evs []l2Ev, c *l2Call, peers []string, window time.Duration, thr 
 			}
 		case "tx-reject-otherhash":
 			s.other = true
+			if !s.hasGet {
+				s.otherFirst = true
+			}
 		}
 	}
 	cat := map[string]int{}
@@ -209,6 +231,8 @@ func l2Observe(evs []l2Ev, c *l2Call, peers []string, window time.Duration, thr 
 			}
 		case s.hasGet && s.late:
 			obs = "req-accept(late-reject-ignored)"
+		case s.hasGet && s.otherFirst:
+			obs = "req-accept(after-reject-for-other-hash)"
 		case s.hasGet && s.other:
 			obs = "req-accept(reject-for-other-hash-ignored)"
 		case s.hasGet:
@@ -294,4 +318,60 @@ func l2Fine(v *L2CallView) string {
 		res = "err:" + v.ErrCode
 	}
 	return strings.Join(parts, ",") + "|allow=" + fmt.Sprint(v.FailAllow) + "|" + res + "|" + v.Concurrent
+}
+
+// l2Unserved lists the peers whose first getdata for the call's transaction,
+// written while the call was running and not preceded by that peer's own
+// reject of the transaction, was never answered with the transaction (no tx
+// received before the peer's next inv for it, up to the end of the history).
+// clear: the call returned at least margin after the getdata was written, so
+// the query was open, and stayed open, when the request arrived; close: the
+// return followed sooner (the request may have crossed the end of the query).
+func l2Unserved(evs []l2Ev, c *l2Call, peers []string, margin time.Duration) (clear, close []string) {
+	tx := c.Hash.String()
+	for _, p := range peers {
+		var get *l2Ev
+		gone := false
+		served := false
+		for i := range evs {
+			e := &evs[i]
+			if e.Peer != p {
+				continue
+			}
+			if e.What == "disconnect" || e.What == "send-failed" {
+				gone = true
+			}
+			if e.Tx != tx || e.Seq <= c.StartSeq {
+				continue
+			}
+			if get == nil {
+				if e.Seq >= c.RetSeq {
+					break
+				}
+				if e.What == "tx-reject" {
+					break // a reject is final: a later request need not be served
+				}
+				if e.What == "tx-getdata" {
+					get = e
+				}
+				continue
+			}
+			if e.What == "rx-tx" {
+				served = true
+				break
+			}
+			if e.What == "rx-inv" {
+				break
+			}
+		}
+		if get == nil || served || gone {
+			continue
+		}
+		if c.RetT-get.T >= margin {
+			clear = append(clear, p)
+		} else {
+			close = append(close, p)
+		}
+	}
+	return
 }
